@@ -19,7 +19,7 @@ DECIDED = [
     "LINE: see NUM obligations (newline room, index never steps over the terminator, writes stay inside the buffer)",
 ]
 NOT_DECIDED = ["per-thread FIFO order and no-loss under all schedules (only the schedule-independent protocol shape)", "content of the formatted prefix (libc formatting)"]
-ASSUMPTIONS = ["aws_mutex / condition variable semantics as documented", "aws_array_list push_back/swap_contents/clear have their documented sequence effect (C09)",
+ASSUMPTIONS = ["registered log subject names are shorter than 2^20 bytes and one formatted message is shorter than 2^30 bytes (the caller computes the line length in int)", "aws_mutex / condition variable semantics as documented", "aws_array_list push_back/swap_contents/clear have their documented sequence effect (C09)",
                "snprintf(buf,n,..) writes at most n bytes including the terminator and returns the untruncated length"]
 
 
@@ -373,6 +373,12 @@ MUTANTS = [
     {"name": "foreground-write-unlocked", "file": CH, "expect": "FOREGROUND",
      "old": "    aws_mutex_lock(&impl->sync);\n    (channel->writer->vtable->write)(channel->writer, log_line);\n    aws_mutex_unlock(&impl->sync);",
      "new": "    aws_mutex_lock(&impl->sync);\n    aws_mutex_unlock(&impl->sync);\n    (channel->writer->vtable->write)(channel->writer, log_line);"},
+    {"name": "separator-index-not-clamped", "file": "source/log_formatter.c", "expect": "LINE",
+     "old": "        current_index = s_advance_and_clamp_index(current_index, separator_written, fake_total_length);", "new": "        current_index += (size_t)separator_written;"},
+    {"name": "clamp-steps-over-terminator", "file": "source/log_formatter.c", "expect": "LINE",
+     "old": "        next_index = (maximum > 0) ? maximum - 1 : 0;", "new": "        next_index = maximum;"},
+    {"name": "prefix-room-forgotten", "file": "source/log_formatter.c", "expect": "LINE",
+     "old": "aws_mem_calloc(formatter->allocator, 1, sizeof(struct aws_string) + total_length);", "new": "aws_mem_calloc(formatter->allocator, 1, sizeof(struct aws_string) + required_length);"},
     {"name": "join-before-finished", "file": CH, "expect": "SHUTDOWN-ORDER",
      "old": "    aws_thread_join(&impl->background_thread);\n\n    aws_thread_clean_up", "new": "    aws_thread_clean_up"},
 ]
